@@ -696,7 +696,21 @@ func runHubScope(c *Ctx) {
 			if !ok || (b.Op != token.NEQ && b.Op != token.EQL) {
 				return "", false, false
 			}
-			if ObjOf(f.Info(), b.Y) == exceptConn || ObjOf(f.Info(), b.X) == exceptConn {
+			isKey := func(e ast.Expr) bool {
+				o := ObjOf(f.Info(), e)
+				if o == nil {
+					return false
+				}
+				hit := false
+				ast.Inspect(f.Body, func(m ast.Node) bool {
+					if rs, ok := m.(*ast.RangeStmt); ok && rs.Key != nil && ObjOf(f.Info(), rs.Key) == o {
+						hit = true
+					}
+					return !hit
+				})
+				return hit
+			}
+			if (ObjOf(f.Info(), b.Y) == exceptConn && isKey(b.X)) || (ObjOf(f.Info(), b.X) == exceptConn && isKey(b.Y)) {
 				return "not-author", b.Op == token.NEQ, true
 			}
 			return "", false, false
